@@ -29,9 +29,11 @@ fn kind(r: &Result<(), SimErr>) -> String {
 
 fn state_diff(a: &mut Rig, b: &mut Rig) -> Option<String> {
     for i in 0..8 {
-        let (x, y) = (a.sim.reg_file[reg(i)].get(), b.sim.reg_file[reg(i)].get());
+        // value and initialization mask (through the hook): the initialization state is what strict mode looks at, so a
+        // step it accepts must leave the same state behind as without it
+        let (x, y) = (a.sim.reg_file[reg(i)].verif_parts(), b.sim.reg_file[reg(i)].verif_parts());
         if x != y {
-            return Some(format!("R{i}: strict x{x:04X}, non-strict x{y:04X}"));
+            return Some(format!("R{i}: strict x{:04X} (init mask x{:04X}), non-strict x{:04X} (init mask x{:04X})", x.0, x.1, y.0, y.1));
         }
     }
     if a.sim.pc != b.sim.pc {
@@ -60,9 +62,9 @@ fn state_diff(a: &mut Rig, b: &mut Rig) -> Option<String> {
         return Some(format!("display: strict {da:?}, non-strict {db:?}"));
     }
     for addr in 0..=u16::MAX {
-        let (x, y) = (a.sim.mem[addr].get(), b.sim.mem[addr].get());
+        let (x, y) = (a.sim.mem[addr].verif_parts(), b.sim.mem[addr].verif_parts());
         if x != y {
-            return Some(format!("mem[x{addr:04X}]: strict x{x:04X}, non-strict x{y:04X}"));
+            return Some(format!("mem[x{addr:04X}]: strict x{:04X} (init mask x{:04X}), non-strict x{:04X} (init mask x{:04X})", x.0, x.1, y.0, y.1));
         }
     }
     None
